@@ -7,7 +7,7 @@ from .. import obs, env
 
 LEVEL = "exploration"
 RULE = ("fmtstr(s) and FmtStr.from_str(s) are executed on (a) every string of up to N tokens over "
-        "a 14-token alphabet (ordinary characters, newline, ESC, 0x9B, '[', digits, ';', '?', "
+        "a 16-token alphabet (ordinary characters, newline, carriage return, ESC, 0x9B, '[', digits, ';', '?', "
         "intermediate, finals, complete SGR) - N=4 quick, 5 thorough - plus random longer ones: "
         "must not raise, result text must be a subsequence of s, and a string without ESC/0x9B "
         "must come back verbatim and unformatted; (b) strings generated from TAGGED pieces (the "
@@ -21,8 +21,8 @@ ASSUMPTIONS = ["'part of an escape sequence' is decided by construction (tagged 
                "ordinary numeric CSI = (ESC [ | 0x9B) parameters final-letter, parameters = ASCII digits and ';' (empty "
                "parameters allowed, ECMA-48 5.4.2)"]
 
-TOKENS = ["a", " ", "\n", "\x1b", "\x9b", "[", "1", "38", ";", "?", "!", "m", "H", "\x1b[31m", "\x1b["]
-TEXT_ALPHA = ["a", "b", " ", "\n", "[", "m", "1", ";", "?", "~", "一", "\t", "H"]
+TOKENS = ["a", " ", "\n", "\r", "\x1b", "\x9b", "[", "1", "38", ";", "?", "!", "m", "H", "\x1b[31m", "\x1b["]
+TEXT_ALPHA = ["a", "b", " ", "\n", "[", "m", "1", ";", "?", "~", "一", "\t", "H", "C", "\r", "\r\n", "\x0c", "\x85", "\u2028", "\x1c", "\x0b"]
 SUPPORTED = [0, 1, 2, 3, 4, 5, 7, 31, 32, 39, 44, 49]
 UNSUPPORTED = [6, 8, 9, 21, 22, 38, 5, 196, 48, 90, 97, 100, 107, 200, 10]
 
@@ -168,6 +168,12 @@ def run(ctx):
                 # (a digit, but not an ASCII one): that character and what follows is text
                 pieces.append(["e", "\x1b["])
                 pieces.append(["t", rng.choice(["٣", "３", "१"]) + "".join(rng.choice(TEXT_ALPHA) for _ in range(rng.randint(0, 3)))])
+                exact = False
+            elif r < .93:
+                # a sequence cut short by the start of the next one (ESC cancels a sequence in
+                # progress and begins another)
+                pieces.append(["e", rng.choice(["\x1b[", "\x1b", "\x1b[3", "\x1b[1;"])])
+                pieces.append(["e", numeric_csi(rng)])
                 exact = False
             else:
                 pieces.append(["e", other_escape(rng)])
